@@ -13,6 +13,11 @@ def run(res, tier, seed):
     engine.corpus(res, "C01")
     n = 60 if tier == "quick" else 500
     engine.run_ops(res, "C01", OPS, seed, n, 150 if tier == "quick" else 400)
+    # the theorems quantify over the row-block size and the cutoffs derived from the cache sizes: the small-cache
+    # build makes the blocked loops (blocks of 256 rows) and the Strassen recursion reachable at moderate sizes
+    import vlib, corr
+    small = corr.Runner(vlib.variant(name="small", **vlib.SMALL))
+    engine.run_ops(res, "C01", OPS, seed + 1, n // 2, 300 if tier == "quick" else 700, runner=small, tag="/cfg=small")
 
 
 def replay(res, path):
